@@ -129,6 +129,34 @@ def case_uvec(log, order, is_exact):
     log.path_stats(pm)
 
 
+def case_truncated_combination(log, order):
+    """eko_truncated's own combination of the building blocks: with v.U_k = 0 (k >= 1) and v.E0 = v (arbitrary non-commuting symbolic
+    matrices otherwise) the truncated kernel conserves v -- every term must keep a U_k or E0 as its left-most factor."""
+    ns, sg, ei, as4, ad = kernel_modules()
+    log.encode(sg.eko_truncated)
+    rp = (MOD, "replay_singlet", {"order": order, "method": "TRUNCATED"})
+    log.register_replay("fallback:replay_singlet", rp, _sampler)
+
+    def run():
+        a0, a1 = SR.var("a0"), SR.var("a1")
+        u = [realnp.array([[1, 0], [0, 1]], dtype=object)] + [constrained("u%d" % k, 2, (1, 1)) for k in range(1, order)]
+        e0 = constrained("e0", 2, (1, 1)) + realnp.array([[1, 0], [0, 1]], dtype=object)
+        saved = (sg.u_vec, sg.r_vec, sg.lo_exact)
+        sg.u_vec = lambda r, o: realnp.array(u, dtype=object)
+        sg.r_vec = lambda *a: None
+        sg.lo_exact = lambda *a: e0.copy()
+        try:
+            E = sg.eko_truncated(None, a1, a0, None, (order, 0))
+        finally:
+            sg.u_vec, sg.r_vec, sg.lo_exact = saved
+        _vE(log, E, (1, 1), "eko_truncated order %d built from sum-rule-respecting U_k, E0" % order, "singlet.TRUNCATED:%d:combination" % order, rp)
+        log.twin("domain")
+        log.collect_ctx()
+
+    _r, pm = explore(run)
+    log.path_stats(pm)
+
+
 def case_qed_iterate(log, order):
     sq = sym_module("eko.kernels.singlet_qed")
     from eko.kernels import EvoMethods
@@ -381,6 +409,8 @@ def main():
     for o in (3, 4):
         for ex in (True, False):
             chk.case("singlet.uvec.o%d.%s" % (o, "exact" if ex else "expanded"), case_uvec, order=o, is_exact=ex)
+    for o in (2, 3, 4):
+        chk.case("singlet.truncated.combination.o%d" % o, case_truncated_combination, order=o)
     for od in ([(1, 1), (2, 1)] if not thorough else [(1, 1), (2, 1), (2, 2), (3, 2)]):
         chk.case("qed.iterate.o%d%d" % od, case_qed_iterate, order=od)
     for nf in ((3, 4, 5, 6) if thorough else (4,)):
